@@ -69,6 +69,11 @@ def histories(tier: str):
                 steps.append(("combine", k, [f"{fresh[0]}.p", f"{fresh[0]}.f"]))
         if len(steps) > len(h) + 1:
             extra.append(steps)
+            # a reorder inside a product space that was moved by a merge (through the newest handle)
+            combs = [st for st in steps if st[0] == "combine"]
+            if len(combs) >= 2:
+                extra.append(steps + [("reorder", len(h) - 1, list(reversed(combs[-1][2])))])
+                extra.append(steps + [("reorder", len(h) - 1, list(reversed(combs[0][2])))])
             extra.append(steps + [("measure", 0, [f"{h[0][1][0]}.f"])] if h[0][1][0].startswith("e") else steps)
     return res + extra
 
@@ -119,6 +124,10 @@ def run_history(h: List[Tuple]) -> Dict[str, Any]:
                 handles[st[1]].combine(*[w.objs[n] for n in st[2]])
             elif st[0] == "measure":
                 handles[st[1]].measure(*[w.objs[n] for n in st[2]])
+            elif st[0] == "reorder":
+                hk = handles[st[1]]
+                if all(any(w.objs[n] is so for so in hk.state_objs) for n in st[2]):
+                    hk.reorder(*[w.objs[n] for n in st[2]])
         except Exception as ex:
             raised = f"step {si} {st}: {type(ex).__name__}: {ex}"
             fails.append({"clause": "valid-construction-history-does-not-raise", "detail": raised})
